@@ -1,6 +1,7 @@
 """C17 — periodic callbacks: real `fit` runs with MetricEvaluator / ObservableEvaluator / ModelSaver / Logger,
 an independent recorder callback as ground truth, exact comparison with the executable model
 (QV.Model.Callbacks via op `c17.run`) plus oracles that re-state the property directly on the implementation."""
+import contextlib
 import csv
 import io
 import os
@@ -23,18 +24,24 @@ FILES = [
 ]
 REQUIRED_THEOREMS = ["C17_records_getattr", "C17_records_statistics_getattr", "C17_schedule_metric", "C17_schedule_observable", "C17_schedule_logger", "C17_schedule_saver", "C17_saver",
                      "C17_saver_file", "C17_records_metric_run", "C17_records_observable_run",
-                     "C17_records_get_value", "C17_records_get_value_out_of_range", "C17_independent"]
+                     "C17_records_get_value", "C17_records_get_value_out_of_range", "C17_independent",
+                     "C17_fit_stream", "C17_fit_schedule", "C17_fit_callbacks", "C17_fit_stopped_beforehand",
+                     "C17_saver_file_last", "C17_saver_file_overwrite", "C17_saver_file_none", "C17_logger_default_msg"]
 EXTRA_TRUSTED = [
-    "C17: the event stream fed to the model is the one recorded by a user callback in the same real run (how fit produces it is C12)",
+    "C17: the event stream fed to the model is the one recorded by a user callback in the same real run; that a real fit(starting_epoch, epochs) "
+    "produces train-start, then the epoch-ends of starting_epoch..last (last = epochs, or the epoch of the first stop request) is "
+    "C17_fit_stream / C17_fit_schedule = the C17 theorems composed with the C12 model of fit (tied to the code by the C12 check and by the "
+    "fit-stream oracle here)",
     "C17: file_name has the form pre+'{}'+post; obs_name+'_'+stat_name is injective on the pairs that occur; "
     "torch.save/torch.load round-trip (C11); verbose printing and pre-existing log-file content are not modelled",
 ]
 RULE = ("case = (state kind, seed, callback list [two metric evaluators with different periods, observable evaluator, "
-        "model saver, logger; periods 1..4, log on/off, metadata callable/dict/none, metadata_only, save_initial], "
+        "model saver, logger; periods 1..7, log on/off, verbose on/off, metadata callable/dict/none, metadata_only, save_initial True/False/default], "
         "metric / observable / statistic NAMES from plain names, the evaluators' own attribute / property / method / dunder names, plural-looking and "
         "odd strings, duplicated observable names, file names with spaces and braces; "
-        "segments [(starting_epoch, epochs, optional stop injected by a user callback at a chosen event, "
-        "clear_history on chosen evaluators afterwards)]); every segment is one real fit(); "
+        "segments [(starting_epoch, epochs, optional stop injected by a user callback at a chosen event, optionally started with the previous "
+        "run's stop request still set, clear_history on chosen evaluators afterwards)]); every segment is one real fit(); scripted metric / message / "
+        "metadata functions return values that depend on the LIVE parameters of the state they are handed; "
         "non-trivial iff at least one scheduled and one unscheduled epoch-end fired for some callback; distinct by hash of the case")
 
 STAT_QUERIES = ["mean", "means", "variance", "variances", "std_error", "std_errors", "num_samples", "num_sample", "foo", "s",
@@ -56,7 +63,7 @@ OWN = {
     "stats": ["data", "__getattr__", "__getitem__", "__init__", "__dict__", "__module__", "__weakref__", "__doc__"],
 }
 OBJECT_NAMES = sorted(dir(object))
-# type of the attribute for the own names whose VALUE is not compared
+# own names whose VALUE is not compared (only membership in this table is used, to build the pool of colliding names)
 OWN_TYPE = {"metrics": "dict", "metric_kwargs": "dict", "past_values": "list", "system": "System", "sampling_kwargs": "dict",
             "clear_history": "method", "get_value": "method", "__len__": "method", "__getattr__": "method", "__getitem__": "method",
             "__init__": "method", "__dict__": "dict", "__module__": "str", "__weakref__": "NoneType", "__doc__": "str",
@@ -65,8 +72,24 @@ PLAIN_NAMES = ["nll", "kl", "fid", "KL", "a"]
 ODD_NAMES = ["", " ", "a b", "{}", "{0}", "{x!r}", "s", "means", "epoch ", "a,b", 'q"t', "\u00b5", "x\ny", "mean", "variance", "data"]
 
 
+_LIVE_OWN = {}
+
+
 def own_names(kind):
-    return sorted(set(OWN[kind]) | set(OBJECT_NAMES))
+    """the names Python's NORMAL attribute lookup resolves on an evaluator / ObservableStatistics object (instance attributes, class
+    attributes, properties, methods, dunders) — so `__getattr__` is never consulted for them. This set is part of the ENVIRONMENT of the
+    property (it says nothing about which private helpers or attributes the classes have): it is READ from the implementation under test and
+    handed to the model as an input (`own_metric` / `own_observable` / `own_stats` of op c17.run; `C17_records_getattr` is stated for an
+    arbitrary such set). `OWN` above is only the pool from which colliding metric / observable names are DRAWN."""
+    if kind not in _LIVE_OWN:
+        from qucumber.callbacks import MetricEvaluator, ObservableEvaluator
+        from qucumber.callbacks.observable_evaluator import ObservableStatistics
+        from qucumber.observables import SigmaZ
+        obj = {"metric": lambda: MetricEvaluator(1, {"m": lambda st: 0.0}),
+               "observable": lambda: ObservableEvaluator(1, [SigmaZ()], num_samples=2),
+               "stats": lambda: ObservableStatistics([])}[kind]()
+        _LIVE_OWN[kind] = sorted(set(vars(obj)) | set(dir(type(obj))))
+    return _LIVE_OWN[kind]
 
 
 def name_pool(kind):
@@ -96,9 +119,18 @@ EVKIND = {"on_train_start": "ts", "on_train_end": "te", "on_epoch_start": "es", 
 
 
 # ---------------------------------------------------------------- scripted environment
-def metric_value(idx, w, offset):
-    """value of scripted metric number idx at world w (pure, injective in (idx, w) for idx < 7)"""
-    return 1000 * w + 7 * idx + offset
+def param_sig(params):
+    """a 3-digit signature of a parameter set (`snapshot(st)` layout): changes whenever any amplitude-network parameter changes"""
+    tot = 0.0
+    for k, v in params["rbm_am"].items():
+        tot += float(v.double().sum())
+    return f2b(tot) % 997
+
+
+def metric_value(idx, w, offset, psig=0):
+    """value of scripted metric number idx at world w when the state passed to it has parameter signature psig
+    (pure, injective in (idx, w, psig) for idx < 7, psig < 1000)"""
+    return (1000 * w + 7 * idx + offset) * 1000 + psig
 
 
 def make_state(kind, seed):
@@ -125,6 +157,10 @@ class Recorder(qc.qucumber.callbacks.CallbackBase):
         self.events = []   # dicts {k, e?, b?, w} of ALL runs
         self.worlds = []   # snapshot per world token
         self.cur = None
+
+    def psig(self, w):
+        """parameter signature of the recorder's OWN snapshot at world w (ground truth for what a callback must have seen there)"""
+        return param_sig(self.worlds[w])
 
     def _ev(self, st, k, **kw):
         w = len(self.worlds)
@@ -163,7 +199,7 @@ class Built:
     pass
 
 
-def build_callbacks(case, rec, tmp):
+def build_callbacks(case, rec, tmp, st):
     from qucumber.callbacks import Logger, MetricEvaluator, ModelSaver, ObservableEvaluator
     from qucumber.observables import SigmaX, SigmaZ
 
@@ -172,16 +208,24 @@ def build_callbacks(case, rec, tmp):
         b = Built()
         b.spec = cb
         b.calls = []      # values returned by the scripted functions, in call order
+        b.seen = []       # per call of a scripted function: what it was handed (state identity, live parameter signature, args, kwargs)
+
+        def saw(nn_state, a, k, b=b):
+            b.seen.append({"w": rec.cur, "is_live_state": nn_state is st, "psig": param_sig(snapshot(nn_state)) if hasattr(nn_state, "networks") else None,
+                           "args": len(a), "kwargs": dict(k)})
         if cb["type"] == "metric":
-            def mk(idx, b=b, cb=cb):
-                def fn(nn_state, **kw):
-                    v = metric_value(idx, rec.cur, kw.get("offset", 0))
+            def mk(idx, b=b, cb=cb, saw=saw):
+                def fn(nn_state, *a, **kw):
+                    saw(nn_state, a, kw)
+                    # the value depends on the LIVE parameters of the state the evaluator hands over
+                    v = metric_value(idx, rec.cur, kw.get("offset", 0), b.seen[-1]["psig"] or 0)
                     b.calls.append(v)
                     return v
                 return fn
             metrics = {name: mk(i) for i, name in enumerate(cb["names"])}
             b.logpath = os.path.join(tmp, cb.get("logname", "log{}.csv").replace("{}", str(ci))) if cb["log"] else None
-            b.obj = MetricEvaluator(cb["period"], metrics, log=b.logpath, offset=cb["offset"])
+            vkw = {"verbose": True} if cb.get("verbose") else {}
+            b.obj = MetricEvaluator(cb["period"], metrics, log=b.logpath, offset=cb["offset"], **vkw)
         elif cb["type"] == "observable":
             cls = {"SigmaZ": SigmaZ, "SigmaX": SigmaX}
             b.logpath = os.path.join(tmp, f"log{ci}.csv") if cb["log"] else None
@@ -191,17 +235,19 @@ def build_callbacks(case, rec, tmp):
                 ob = cls[oc]()
                 ob.name = on
                 observables.append(ob)
+            vkw = {"verbose": True} if cb.get("verbose") else {}
             b.obj = ObservableEvaluator(cb["period"], observables, log=b.logpath,
-                                        num_samples=6, burn_in=2, steps=1)
+                                        num_samples=6, burn_in=2, steps=1, **vkw)
             b.captured = {}   # world -> the dict returned by system.statistics
             orig = b.obj.system.statistics
 
-            def wrapped(nn_state, *a, _orig=orig, _b=b, _cb=cb, **k):
+            def wrapped(nn_state, *a, _orig=orig, _b=b, _cb=cb, _saw=saw, **k):
+                _saw(nn_state, a, k)
                 r = _orig(nn_state, *a, **k)
                 # a System may report further statistics under any key: the evaluator records whatever it is handed
                 for oi, o in enumerate(r):
                     for ki, key in enumerate(_cb.get("extra_stats", [])):
-                        r[o][key] = extra_stat_value(rec.cur, oi, ki)
+                        r[o][key] = extra_stat_value(rec.cur, oi, ki) + (_b.seen[-1]["psig"] or 0) / 1024.0
                 _b.captured[rec.cur] = r
                 _b.calls.append(rec.cur)
                 return r
@@ -210,7 +256,8 @@ def build_callbacks(case, rec, tmp):
             b.folder = os.path.join(tmp, f"saver{ci}")
             md = None
             if cb["metadata"] == "callable":
-                def md(nn_state, epoch, _b=b):
+                def md(nn_state, epoch, *a, _b=b, _saw=saw, **k):
+                    _saw(nn_state, a, k)
                     return {"epoch": epoch, "w": rec.cur, "wsum": float(nn_state.rbm_am.state_dict()[_first_key(nn_state)].sum())}
             elif cb["metadata"] == "dict":
                 md = {"tag": "fixed", "n": 3}
@@ -219,15 +266,18 @@ def build_callbacks(case, rec, tmp):
             b.md = md
             # pre / post are LITERAL text: braces are escaped so that `file_name.format(x)` renders them as they are
             esc = lambda t: t.replace("{", "{{").replace("}", "}}")  # noqa: E731
-            b.obj = ModelSaver(cb["period"], b.folder, esc(cb["pre"]) + "{}" + esc(cb["post"]), save_initial=cb["save_initial"],
-                               metadata=md, metadata_only=cb["metadata_only"])
+            sikw = {} if cb["save_initial"] is None else {"save_initial": cb["save_initial"]}     # None: left to its default (True)
+            b.obj = ModelSaver(cb["period"], b.folder, esc(cb["pre"]) + "{}" + esc(cb["post"]),
+                               metadata=md, metadata_only=cb["metadata_only"], **sikw)
         elif cb["type"] == "logger":
             b.out = []
             if cb.get("default_msg"):
                 b.obj = Logger(cb["period"], logger_fn=b.out.append, tag="x")
             else:
-                b.obj = Logger(cb["period"], logger_fn=b.out.append,
-                               msg_gen=lambda st, e, **kw: [rec.cur, e, kw["tag"]], tag="x")
+                def msg_gen(nn_state, e, *a, _saw=saw, _b=b, **kw):
+                    _saw(nn_state, a, kw)
+                    return [rec.cur, e, kw.get("tag"), _b.seen[-1]["psig"]]
+                b.obj = Logger(cb["period"], logger_fn=b.out.append, msg_gen=msg_gen, tag="x")
         built.append(b)
     return built
 
@@ -285,14 +335,17 @@ def own_value(kind, b, name, r, tok, snap):
             return {"own": name, "value": [tok(x) for x in r]}
     except Exception as e:  # noqa: BLE001
         return {"own": name, "bad_value": type(e).__name__, "type": type(r).__name__}
-    return {"own": name, "type": type(r).__name__}
+    # any other own attribute: its type / value is not the property's business — only that it is NOT the recorded values
+    if isinstance(r, np.ndarray) or type(r).__name__ == "ObservableStatistics":
+        return {"own": name, "is_recorded_values": type(r).__name__}
+    return {"own": name}
 
 
 def attr_view(kind, b, obj, name, tok, wrap):
     """`getattr(obj, name)` — attribute syntax; `wrap` renders what `__getattr__` is expected to produce"""
     def f():
         r = getattr(obj, name)
-        if name in OWN[kind] or name in OBJECT_NAMES:
+        if name in own_names(kind):
             return own_value(kind, b, name, r, tok, None)
         return wrap(r)
     return guarded(f)
@@ -352,7 +405,7 @@ def expected_own(kind, b, name, msnap, extra=None):
     if name == "log":
         return {"own": name, "value": os.path.basename(b.logpath) if b.logpath else None}
     if name == "verbose":
-        return {"own": name, "value": False}
+        return {"own": name, "value": bool(cb.get("verbose", False))}
     if name == "epochs":
         return {"own": name, "value": msnap["epochs"]}
     if name == "names":
@@ -365,7 +418,7 @@ def expected_own(kind, b, name, msnap, extra=None):
         return {"own": name, "value": msnap["last"]}
     if name == "data" and kind == "stats":
         return {"own": name, "value": extra}
-    return {"own": name, "type": OWN_TYPE.get(name, "?")}
+    return {"own": name}
 
 
 def model_attr_view(kind, b, msnap):
@@ -405,7 +458,7 @@ def run_case(ctx, case):
 def _run_case(ctx, case, tmp):
     st, data, bases = make_state(case["kind"], case["seed"])
     rec = Recorder()
-    built = build_callbacks(case, rec, tmp)
+    built = build_callbacks(case, rec, tmp, st)
     periods = [cb["period"] for cb in case["cbs"]]
     sig0 = f"C17/{case['kind']}"
 
@@ -432,19 +485,39 @@ def _run_case(ctx, case, tmp):
     impl_snaps = []      # per segment: list of observations per callback
     seg_events = []      # per segment: recorder events of that segment
     nontrivial = False
+    printed = []         # per segment: what the run wrote to stdout (only verbose evaluators print)
     for seg in case["segments"]:
         n0 = len(rec.events)
-        st.stop_training = False
+        if not seg.get("keep_stop"):
+            st.stop_training = False       # keep_stop: the flag is left as the previous run left it (set => fit returns at once)
+        stop_before = bool(st.stop_training)
         stopper = StopAt(seg.get("stop"))
         cbl = [rec] + [b.obj for b in built] + [stopper]
         kw = dict(epochs=seg["epochs"], starting_epoch=seg["start"], pos_batch_size=4, k=1, lr=0.05, callbacks=cbl)
         if bases is not None:
             kw["input_bases"] = bases
         err = None
+        buf = io.StringIO()
         try:
-            st.fit(data, **kw)
+            with contextlib.redirect_stdout(buf):
+                st.fit(data, **kw)
         except Exception as e:  # noqa: BLE001
             err = type(e).__name__
+        printed.append(buf.getvalue())
+        if err is None and not stop_before:
+            # the key events of one real fit: one train start, first, then the epoch-ends of start..last (C17_fit_stream / RunEnds)
+            sp = seg.get("stop")
+            last = seg["epochs"] if not sp else (min(seg["start"], seg["epochs"]) if sp["k"] == "ts" else sp["e"])
+            want = ["ts"] + [("ee", e) for e in range(seg["start"], last + 1)]
+            got = [("ee", ev["e"]) if ev["k"] == "ee" else "ts" for ev in rec.events[n0:] if ev["k"] in ("ts", "ee")]
+            ctx.oracle("one fit = train start, then the epoch-ends of starting_epoch..last (last = epochs, or the epoch of the stop request)",
+                       got == want, {**case, "at_segment": len(seg_results)}, detail={"got": got, "expected": want},
+                       sig=f"{sig0}/fit-stream-oracle", theorem="C17_fit_stream, C17_fit_schedule")
+        if stop_before:
+            ctx.oracle("a run started with the stop request still set dispatches no event (no initial save, no evaluation)",
+                       err is None and rec.events[n0:] == [], {**case, "at_segment": len(seg_results)},
+                       detail={"error": err, "events": rec.events[n0:][:5]}, sig=f"{sig0}/run-with-stop-set",
+                       theorem="C17_fit_stopped_beforehand (C12_stopped_run_is_noop)")
         seg_results.append(err)
         seg_events.append(rec.events[n0:])
         if err is not None:
@@ -482,8 +555,13 @@ def _run_case(ctx, case, tmp):
                 ctx.count(f"observable.extra_statistic={k!r}")
         if cb["type"] == "saver":
             ctx.count(f"saver.metadata={cb['metadata']}{'/only' if cb['metadata_only'] else ''}")
+            ctx.count(f"saver.save_initial={cb['save_initial']}")
+        if cb.get("verbose"):
+            ctx.count(f"{cb['type']}.verbose")
     for seg, err in zip(case["segments"], seg_results):
         ctx.count("segment.stop=" + (seg["stop"]["k"] if seg.get("stop") else "none"))
+        if seg.get("keep_stop"):
+            ctx.count("segment.started_with_stop_still_set")
         ctx.count("segment.error=" + str(err))
         if seg.get("clear"):
             ctx.count("segment.clear")
@@ -497,7 +575,7 @@ def _run_case(ctx, case, tmp):
             cb = b.spec
             if cb["type"] == "metric":
                 mcbs.append({"kind": "metric", "period": cb["period"], "log": cb["log"],
-                             "vals": [[nm, [metric_value(i, w, cb["offset"]) for w in range(nworlds)]] for i, nm in enumerate(cb["names"])]})
+                             "vals": [[nm, [metric_value(i, w, cb["offset"], rec.psig(w)) for w in range(nworlds)]] for i, nm in enumerate(cb["names"])]})
             elif cb["type"] == "observable":
                 stats = []
                 for w in range(nworlds):
@@ -507,7 +585,7 @@ def _run_case(ctx, case, tmp):
                              "stats": stats})
             elif cb["type"] == "saver":
                 mcbs.append({"kind": "saver", "period": cb["period"], "pre": cb["pre"], "post": cb["post"],
-                             "save_initial": cb["save_initial"], "metadata": cb["metadata"],
+                             "save_initial": cb["save_initial"] is not False, "metadata": cb["metadata"],
                              "metadata_only": cb["metadata_only"], "reserved": bool(cb.get("reserved"))})
             else:
                 mcbs.append({"kind": "logger", "period": cb["period"]})
@@ -549,10 +627,12 @@ def _run_case(ctx, case, tmp):
                     ctx.point("saver.files", "property", isnap["files"], names, cc, exact=True, sig=f"{sig0}/saver/files", theorem="C17_saver")
                 else:
                     if b.spec.get("default_msg"):
-                        mo = ["Epoch " + str(e) + ": " + str({"tag": "x"}) for (_, e) in msnap["out"]]
+                        # the model's `defaultMsg` (Logger._default_msg_gen) applied to the epochs at which the model's Logger acted
+                        mo = ctx.driver.call("c17.default_msg", kwargs_repr=str({"tag": "x"}), epochs=[e for (_, e) in msnap["out"]])
                     else:
-                        mo = [[w, e, "x"] for (w, e) in msnap["out"]]
-                    ctx.point("logger.out", "property", isnap["out"], mo, cc, exact=True, sig=f"{sig0}/logger/schedule", theorem="C17_schedule_logger")
+                        mo = [[w, e, "x", rec.psig(w)] for (w, e) in msnap["out"]]
+                    ctx.point("logger.out", "property", isnap["out"], mo, cc, exact=True, sig=f"{sig0}/logger/schedule",
+                              theorem="C17_logger_default_msg" if b.spec.get("default_msg") else "C17_schedule_logger")
             for ci, b in enumerate(built):
                 isnap = after_clear[si][ci] if si < len(after_clear) else None
                 if isnap is None:
@@ -577,6 +657,44 @@ def _run_case(ctx, case, tmp):
 
     # ---- oracles directly on the implementation
     oracle_checks(ctx, case, built, rec, seg_events, seg_results, impl_snaps, st, sig0)
+    live_state_checks(ctx, case, built, rec, seg_events, seg_results, printed, sig0)
+
+
+SAMPLING_KWARGS = {"num_samples": 6, "burn_in": 2, "steps": 1}
+
+
+def live_state_checks(ctx, case, built, rec, seg_events, seg_results, printed, sig0):
+    """WHICH state the callbacks evaluate and with WHICH arguments (the scripted functions record what they are handed):
+    the live NeuralState object being trained (identity), whose parameters at that moment are those of the recorder's own snapshot of the
+    same event, no extra positional arguments, and exactly the configured keyword arguments. Verbose evaluators print at, and only at,
+    their evaluations and record exactly what the silent ones record (the records are compared with the verbose-free model above)."""
+    if any(e is not None for e in seg_results):
+        return
+    for ci, b in enumerate(built):
+        cb = b.spec
+        t = cb["type"]
+        cc = {**case, "callback": ci}
+        want_kw = {"metric": {"offset": cb.get("offset")}, "observable": SAMPLING_KWARGS, "saver": {},
+                   "logger": {"tag": "x"}}[t]
+        bad = [x for x in b.seen if not x["is_live_state"] or x["args"] != 0 or x["kwargs"] != want_kw
+               or x["psig"] != rec.psig(x["w"])]
+        ctx.oracle(f"{t}: scripted functions receive the live state (same object, current parameters), no extra args, exactly the configured kwargs",
+                   not bad, cc, detail={"bad_calls": bad[:3], "expected_kwargs": want_kw,
+                                        "recorder_psig": [rec.psig(x["w"]) for x in bad[:3]]},
+                   sig=f"{sig0}/{t}/live-state-and-kwargs", theorem="C17_records_metric_run / C17_records_observable_run / C17_saver / C17_schedule_logger "
+                   "(values are functions of the world token of the epoch-end event itself)")
+    # verbose: something is printed in a run iff a verbose evaluator evaluated in it
+    for si, (evs, out) in enumerate(zip(seg_events, printed)):
+        n_eval = 0
+        for b in built:
+            cb = b.spec
+            if cb["type"] in ("metric", "observable") and cb.get("verbose") and cb["period"] >= 1:
+                n_eval += sum(1 for ev in evs if ev["k"] == "ee" and ev["e"] % cb["period"] == 0)
+        ctx.oracle("verbose evaluators print at their evaluations, nothing is printed otherwise", (out != "") == (n_eval > 0),
+                   {**case, "at_segment": si}, detail={"stdout": out[:300], "verbose_evaluations": n_eval},
+                   sig=f"{sig0}/verbose-output", theorem="C17_schedule_metric, C17_schedule_observable")
+        if n_eval:
+            ctx.count("segment.verbose_output")
 
 
 def md_expected(b, rec, mdtok):
@@ -625,7 +743,7 @@ def check_files(ctx, case, cc, b, st, rec, writes, sig0):
             detail = {"params_equal_snapshot_at_world": ok_params, "metadata": repr(extra)[:300], "expected": repr(md)[:300],
                       "world": wr["w"], "arg": wr["arg"]}
         ctx.point("saver.file_content", "property", bool(ok), True, {**cc, "file": name, "detail": detail}, exact=True,
-                  sig=f"{sig0}/saver/content", theorem="C17_saver, C17_saver_file, C17_saver_initial_file")
+                  sig=f"{sig0}/saver/content", theorem="C17_saver, C17_saver_file_last, C17_saver_file_overwrite (last write wins over several runs)")
 
 
 def oracle_checks(ctx, case, built, rec, seg_events, seg_results, impl_snaps, st, sig0):
@@ -696,12 +814,12 @@ def oracle_checks(ctx, case, built, rec, seg_events, seg_results, impl_snaps, st
                 ctx.oracle(f"{t}: last == last record", lastok, {**cc, "at_segment": si}, detail={"last": snap["last"]},
                            sig=f"{sig0}/{t}/last-oracle", theorem="C17_records_*_run")
                 if t == "metric":
-                    exp = [[nm, {"ok": [metric_value(i, w, cb["offset"]) for _, w in kept]}] for i, nm in enumerate(cb["names"])]
+                    exp = [[nm, {"ok": [metric_value(i, w, cb["offset"], rec.psig(w)) for _, w in kept]}] for i, nm in enumerate(cb["names"])]
                     got = [x for x in snap["series"] if x[0] in tracked]
                     ctx.oracle("metric: per-name arrays == values computed at those epochs", got == exp, {**cc, "at_segment": si},
                                detail={"got": got, "expected": exp}, sig=f"{sig0}/metric/series-oracle", theorem="C17_records_getitem")
                     if cb["log"]:
-                        rows = [["epoch"] + cb["names"]] + [[str(e)] + [str(metric_value(i, w, cb["offset"])) for i in range(len(cb["names"]))] for e, w in allev]
+                        rows = [["epoch"] + cb["names"]] + [[str(e)] + [str(metric_value(i, w, cb["offset"], rec.psig(w))) for i in range(len(cb["names"]))] for e, w in allev]
                         ctx.oracle("metric: CSV == header + one row per evaluation", snap["log"] == rows, {**cc, "at_segment": si},
                                    detail={"got": snap["log"], "expected": rows}, sig=f"{sig0}/metric/csv-oracle", theorem="C17_records_metric_run")
                 else:
@@ -716,13 +834,13 @@ def oracle_checks(ctx, case, built, rec, seg_events, seg_results, impl_snaps, st
                 if cb.get("default_msg"):
                     exp = ["Epoch " + str(e) + ": " + str({"tag": "x"}) for e, _ in allev]
                 else:
-                    exp = [[w, e, "x"] for e, w in allev]
+                    exp = [[w, e, "x", rec.psig(w)] for e, w in allev]
                 ctx.oracle("logger: one message per multiple of p", snap["out"] == exp, {**cc, "at_segment": si},
                            detail={"got": snap["out"], "expected": exp}, sig=f"{sig0}/logger/schedule-oracle", theorem="C17_schedule_logger")
             if seg.get("clear") and ci in seg["clear"]:
                 kept = []
         if t == "metric":
-            exp_calls = [metric_value(i, w, cb["offset"]) for _, w in allev for i in range(len(cb["names"]))]
+            exp_calls = [metric_value(i, w, cb["offset"], rec.psig(w)) for _, w in allev for i in range(len(cb["names"]))]
             ctx.oracle("metric functions called exactly at the scheduled epoch-ends, in order", b.calls == exp_calls, cc,
                        detail={"calls": b.calls, "expected": exp_calls}, sig=f"{sig0}/metric/calls-oracle", theorem="C17_schedule_metric")
         elif t == "observable":
@@ -733,7 +851,7 @@ def oracle_checks(ctx, case, built, rec, seg_events, seg_results, impl_snaps, st
             exp = {}
             for evs in seg_events:
                 for ev in evs:
-                    if ev["k"] == "ts" and cb["save_initial"]:
+                    if ev["k"] == "ts" and cb["save_initial"] is not False:      # None = constructor default = True
                         exp[cb["pre"] + "initial" + cb["post"]] = (ev["w"], 0)
                     if ev["k"] == "ee" and ev["e"] % p == 0:
                         exp[cb["pre"] + str(ev["e"]) + cb["post"]] = (ev["w"], ev["e"])
@@ -758,7 +876,7 @@ def oracle_checks(ctx, case, built, rec, seg_events, seg_results, impl_snaps, st
                         ok, bad = False, name
                         break
             ctx.oracle("saver: files named by epoch (+initial), each loads back to the parameters at that event with the metadata", ok, cc,
-                       detail={"files": files, "expected": sorted(exp), "bad_file": bad}, sig=f"{sig0}/saver/oracle", theorem="C17_saver, C17_saver_file")
+                       detail={"files": files, "expected": sorted(exp), "bad_file": bad}, sig=f"{sig0}/saver/oracle", theorem="C17_saver, C17_saver_file_overwrite, C17_saver_file_none")
 
 
 # ---------------------------------------------------------------- generation
@@ -776,23 +894,26 @@ def gen_case(rng, kind, p1, thorough, idx):
         if len(onames) == 3 and rng.random() < 0.6:
             onames[2] = onames[0]      # duplicated observable name: the later observable wins, the first position is kept
         obs = [[c, n_] for c, n_ in zip(obs_classes, onames)]
+    def per():
+        # periods 1..4 mostly; now and then a period longer than most runs (5..7: few or no scheduled epochs at all)
+        return rng.choice([1, 2, 3, 4]) if rng.random() < 0.85 else rng.choice([5, 6, 7])
     cbs = [
         {"type": "metric", "period": p1, "names": draw_names(rng, "metric", rng.choice([1, 2, 3]), forbid=("epoch",)), "log": True,
-         "offset": rng.randrange(0, 5), "logname": rng.choice(["log{}.csv", "log {}.csv", "l{}og{{0}}.csv"])},
+         "offset": rng.randrange(0, 5), "logname": rng.choice(["log{}.csv", "log {}.csv", "l{}og{{0}}.csv"]), "verbose": rng.random() < 0.3},
         {"type": "metric", "period": p2, "names": draw_names(rng, "metric", rng.choice([1, 1, 2]), forbid=("epoch",)),
-         "log": rng.random() < 0.5, "offset": rng.randrange(0, 5)},
-        {"type": "observable", "period": rng.choice([1, 2, 3, 4]), "obs": obs, "log": rng.random() < 0.7,
-         "extra_stats": rng.choice([[], [], ["bias"], ["data", "s", "means"], ["", "bias", "data"], ["s", "mean "]])},
-        {"type": "saver", "period": rng.choice([1, 2, 3, 4]), "pre": rng.choice(["m_", "ep", "run {a} ", "{0}x"]), "post": rng.choice([".pt", "", " {}.pt"]),
-         "save_initial": rng.random() < 0.6, "metadata": rng.choice(["callable", "dict", "none"]), "metadata_only": rng.random() < 0.3},
-        {"type": "logger", "period": rng.choice([1, 2, 3, 4]), "default_msg": rng.random() < 0.3},
+         "log": rng.random() < 0.5, "offset": rng.randrange(0, 5), "verbose": rng.random() < 0.2},
+        {"type": "observable", "period": per(), "obs": obs, "log": rng.random() < 0.7,
+         "extra_stats": rng.choice([[], [], ["bias"], ["data", "s", "means"], ["", "bias", "data"], ["s", "mean "]]), "verbose": rng.random() < 0.3},
+        {"type": "saver", "period": per(), "pre": rng.choice(["m_", "ep", "run {a} ", "{0}x"]), "post": rng.choice([".pt", "", " {}.pt"]),
+         "save_initial": rng.choice([True, True, False, None]), "metadata": rng.choice(["callable", "dict", "none"]), "metadata_only": rng.random() < 0.3},
+        {"type": "logger", "period": per(), "default_msg": rng.random() < 0.3},
     ]
     rng.shuffle(cbs)
     nseg = rng.choice([1, 2, 2, 3]) if thorough else rng.choice([1, 2, 2])
     segs = []
     start = rng.choice([0, 1, 1, 2, -1]) if idx % 3 == 0 else 1
     for s in range(nseg):
-        length = rng.choice([0, 3, 4, 5, 6, 8])
+        length = rng.choice([0, 3, 4, 5, 6, 8, 15])
         epochs = start + length - 1
         stop = None
         if length >= 2 and rng.random() < 0.5:
@@ -804,7 +925,12 @@ def gen_case(rng, kind, p1, thorough, idx):
         elif rng.random() < 0.1:
             stop = {"k": "ts"}
         clear = [i for i, cb in enumerate(cbs) if cb["type"] in ("metric", "observable") and rng.random() < 0.3]
-        segs.append({"start": start, "epochs": epochs, "stop": stop, "clear": clear})
+        seg = {"start": start, "epochs": epochs, "stop": stop, "clear": clear}
+        # a run started while the previous run's stop request is still set: fit returns before on_train_start
+        if segs and segs[-1]["stop"] and not segs[-1].get("keep_stop") and rng.random() < 0.4:
+            seg["keep_stop"] = True
+            seg["stop"] = None
+        segs.append(seg)
         start = rng.choice([1, epochs + 1, max(start, 1), 3])
     return {"kind": kind, "seed": rng.randrange(1000), "cbs": cbs, "segments": segs}
 
@@ -843,25 +969,62 @@ def run(ctx):
         got = ctx.driver.call("c17.strip", names=words)
         ctx.point("stripPlural", "aux", [w[:-1] if w.endswith("s") else w for w in words], got, {"words": words}, exact=True, sig="C17/stripPlural")
     own_sanity(ctx)
+    format_spec_cases(ctx)
     for case in gen_cases(ctx, ctx.tier == "thorough"):
         run_case(ctx, case)
 
 
+def format_spec_cases(ctx):
+    """`file_name` with a format SPEC (outside the model, whose file names are `pre{}post`): `"m{:03d}.pt"` names the epoch files
+    `m002.pt`, …, each loads back to the parameters at the end of that epoch; the "initial" save (`"{:03d}".format("initial")`) is a
+    ValueError at train start — the recorded behaviour of `str.format`, so such a pattern needs `save_initial=False`."""
+    from qucumber.callbacks import ModelSaver
+    for save_initial in (False, True, None):
+        tmp = tempfile.mkdtemp(prefix="qv_c17f_")
+        case = {"format_spec": "m{:03d}.pt", "save_initial": save_initial}
+        try:
+            st, data, bases = make_state("pos", 3)
+            rec = Recorder()
+            kw = {} if save_initial is None else {"save_initial": save_initial}
+            saver = ModelSaver(2, os.path.join(tmp, "f"), "m{:03d}.pt", **kw)
+            err = None
+            try:
+                st.fit(data, epochs=5, pos_batch_size=4, k=1, lr=0.05, callbacks=[rec, saver])
+            except Exception as e:  # noqa: BLE001
+                err = type(e).__name__
+            files = sorted(os.listdir(os.path.join(tmp, "f")))
+            ctx.case(case, nontrivial=True)
+            ctx.count("saver.file_name_with_format_spec")
+            if save_initial is False:
+                ok = err is None and files == ["m002.pt", "m004.pt"]
+                if ok:
+                    for ev in rec.events:
+                        if ev["k"] == "ee" and ev["e"] % 2 == 0:
+                            loaded = torch.load(os.path.join(tmp, "f", "m%03d.pt" % ev["e"]), weights_only=False)
+                            ok = ok and files_equal_snapshot(loaded, rec.worlds[ev["w"]], st.networks)
+                ctx.oracle("saver: a format spec in file_name formats the epoch; files load back to the parameters at that epoch's end", ok, case,
+                           detail={"error": err, "files": files}, sig="C17/saver/format-spec", theorem="C17_saver (file naming is str.format: assumed)")
+            else:
+                ctx.oracle("saver: an integer format spec cannot format 'initial' (ValueError at train start, nothing saved)",
+                           err == "ValueError" and files == [] and [ev["k"] for ev in rec.events] == ["ts"], case,
+                           detail={"error": err, "files": files}, sig="C17/saver/format-spec-initial")
+        finally:
+            shutil.rmtree(tmp, ignore_errors=True)
+
+
 def own_sanity(ctx):
-    """the harness constant OWN (names resolved by normal attribute lookup) against the live objects (API drift detector)"""
-    from qucumber.callbacks import MetricEvaluator, ObservableEvaluator
-    from qucumber.callbacks.observable_evaluator import ObservableStatistics
-    from qucumber.observables import SigmaZ
-    live = {"metric": MetricEvaluator(1, {"m": lambda st: 0.0}), "observable": ObservableEvaluator(1, [SigmaZ()], num_samples=2),
-            "stats": ObservableStatistics([])}
-    for kind, obj in live.items():
-        got = sorted(set(vars(obj)) | set(dir(type(obj))))
-        ctx.point(f"own_names[{kind}]", "aux", got, own_names(kind), {"kind": kind}, exact=True, sig="C17/own-names")
+    """bookkeeping only: how many of the names the generator draws collisions from (`OWN`) are in fact resolved by normal lookup on the
+    live objects. No comparison: which attributes / helper methods the classes have is not constrained by the property."""
+    for kind in ("metric", "observable", "stats"):
+        live = set(own_names(kind))
+        ctx.count(f"own_names[{kind}].pool_names_live", sum(1 for n in OWN[kind] if n in live))
+        ctx.count(f"own_names[{kind}].pool_names_not_live", sum(1 for n in OWN[kind] if n not in live))
 
 
 def search(ctx):
     drv, ctx.driver = ctx.driver, None
     try:
+        format_spec_cases(ctx)
         for case in gen_cases(ctx, True):
             run_case(ctx, case)
     finally:
@@ -869,5 +1032,8 @@ def search(ctx):
 
 
 def replay(ctx, case):
+    if "format_spec" in case:
+        format_spec_cases(ctx)
+        return
     case = {k: v for k, v in case.items() if k not in ("at_segment", "callback", "file", "detail")}
     run_case(ctx, case)
